@@ -634,13 +634,13 @@ impl Check for C03Check {
         }
     }
     fn rule(&self) -> &'static str {
-        "cases 0..N-1 enumerate the typed-assignment matrix completely: 14 write mechanisms (assign, initialiser, FB input, FB in-out, function return, struct field, array element, subrange, arithmetic with an untyped literal, FOR control incl. loops that end before an iteration completes, FB output read, implicit initial values of subranges excluding 0 incl. restarts) x every ordered pair of 16 elementary numeric/bit/duration types (cells the checker rejects are counted and skipped); the remaining cases are seeded histories of ProgGen programs under cycles with boundary %I images, value faults + continue, warm/cold restarts and save + power cycle; after EVERY operation every program / FB / struct / array slot is compared with its declaration (VarDef.type_id resolved in the type registry, subranges and enums range-checked) and every global with its build-time tag; distinct non-trivial = distinct accepted matrix cells + distinct (program hash) histories"
+        "cases 0..N-1 enumerate the typed-assignment matrix completely: 17 write mechanisms (assign, initialiser, FB input, FB in-out, function return, struct field, array element, subrange, arithmetic with an untyped literal, FOR control incl. loops that end before an iteration completes, FB output read, implicit initial values of subranges excluding 0 incl. restarts, positional calls of FBs and functions that declare EN/ENO themselves, program writes and external write_access through partial %X/%B/%W/%D access paths) x every ordered pair of 16 elementary numeric/bit/duration types (cells the checker rejects are counted and skipped); then debugger writes through the real control endpoint: `set` and `var.force` x 18 variable types x 19 values (in range, top bit set, just out of range, negative, TRUE); the remaining cases are seeded histories of ProgGen programs under cycles with boundary %I images, value faults + continue, warm/cold restarts and save + power cycle; after EVERY operation every program / FB / struct / array slot is compared with its declaration (VarDef.type_id resolved in the type registry, subranges and enums range-checked) and every global with its build-time tag; distinct non-trivial = distinct accepted matrix cells + distinct (program hash) histories"
     }
     fn assumptions(&self) -> Vec<&'static str> {
         vec![
             "globals have no declared-type accessor: their build-time tag (initialisers are coerced at compile time) is the reference",
             "hidden state of standard FBs is not judged, only declared parameters and variables",
-            "debugger writes go through the real control endpoint (`set` and `var.force` requests on a global of each integer/bit-string type, hook H7); the DAP adapter's own setVariable path is not run",
+            "debugger writes go through the real control endpoint (`set` and `var.force` requests on a global of 18 elementary types with 19 boundary values each, hook H7); the DAP adapter's own setVariable path is not run",
             "drift is attributed to the operation and, by ProgGen's naming scheme, to the slot class that was written (in_* = I/O latch, k* = FOR control, x/go = FB input, else assignment)",
         ]
     }
